@@ -6,11 +6,11 @@
 
 package evaluator
 
-//@ global ErrPanic != nil && ErrIndexValue != nil && ErrBounds != nil && ErrSlice != nil && ErrMapKey != nil
+//@ global ErrPanic != nil && ErrIndexValue != nil && ErrBounds != nil && ErrSlice != nil && ErrMapKey != nil && ErrVarNotSet != nil && ErrBadArguments != nil && ErrBadRepetition != nil && ErrAnyConversion != nil && ErrRangevalue != nil && ErrStopped != nil && ErrTest != nil && ErrInternal != nil && ErrType != nil && ErrOperation != nil && ErrUnknownNode != nil && ErrRangeType != nil && ErrAssignmentTarget != nil
 //@ global wraps(ErrIndexValue, ErrPanic) && wraps(ErrBounds, ErrPanic) && wraps(ErrSlice, ErrPanic) && wraps(ErrMapKey, ErrPanic)
 //@ global !wraps(ErrIndexValue, ErrBounds) && !wraps(ErrBounds, ErrIndexValue) && !wraps(ErrSlice, ErrBounds) && !wraps(ErrSlice, ErrIndexValue)
 
-//@ typeinv arrayVal: self.Elements != nil
+//@ typeinv arrayVal: self.Elements != nil && forall(j, int, 0 <= j && j < len(*self.Elements) ==> okValue((*self.Elements)[j]))
 //@ typeinv stringVal: base(self.runeSlice) == 0 || (len(self.runeSlice) == rlen(self.V) && off(self.runeSlice) == 0 && contents(self.runeSlice) == runes(self.V))
 
 // ---- spec functions (docs/spec.md, Index and Slice) ----
@@ -221,6 +221,7 @@ package evaluator
 //@   ensures[C10 blank] s == nil || name == "_" ==> r == nil && !ok
 //@   ensures[C10 innermost] s != nil && name != "_" ==> ok == bound(s, name) && (ok ==> r == lookup(s, name))
 //@   ensures[C10 unbound] !ok ==> r == nil
+//@   ensures[C10 found-in-chain] ok ==> exists(t, *scope, t != nil && has(t.values, name) && r == t.values[name])
 //@   mustfail ensures[C10 canary] ok ==> r == s.values[name]
 //@   modifies nothing
 
